@@ -321,9 +321,7 @@ Proof.
         apply IH in E. rewrite set_vl_length in E. congruence.
       * destruct (discard_all c vls t) as [a b] eqn:E. apply IH in E. congruence.
       * destruct (discard_all c vls t) as [a b] eqn:E. apply IH in E. congruence.
-    + destruct (c_maxio c =? 1).
-      * destruct (discard_all c vls t) as [a b] eqn:E. apply IH in E. congruence.
-      * congruence.
+    + destruct (discard_all c vls t) as [a b] eqn:E. apply IH in E. congruence.
 Qed.
 
 (* what the loop does to one value log `w`: the data stay, chunks are only removed, the chunk
@@ -379,9 +377,6 @@ Proof.
         eapply Skip; eauto.
       * destruct (discard_all c vls t) as [a b] eqn:E. assert (a = vls') by congruence. subst a.
         eapply Skip; eauto.
-    + destruct (c_maxio c =? 1).
-      * destruct (discard_all c vls t) as [a b] eqn:E. assert (a = vls') by congruence. subst a.
-        eapply Skip; eauto.
-      * assert (vls' = vls) by congruence. subst vls'.
-        exists vl. repeat split; auto using incl_refl.
+    + destruct (discard_all c vls t) as [a b] eqn:E. assert (a = vls') by congruence. subst a.
+      eapply Skip; eauto.
 Qed.
